@@ -80,3 +80,9 @@ package stream
 //@ modifies *
 //@ at call Unlock assert forall k uint64: k != streamID ==> (has(m.streams, k) <==> old(has(m.streams, k))) && m.streams[k] == old(m.streams[k])
 //@ at call (*Stream).Close assert $0 == old(m.streams[streamID])
+// ---- C03: the responder key an initiator derives from is the one delivered with the ACK for its request ----
+// StreamOpenResult.RemoteEphemeral is written in one place only: HandleStreamOpenAck builds the result from
+// its remoteEphemeral argument and sends it on the channel of the pending request registered under the
+// request id of the ACK (the channel hand-off itself is not modelled by the verifier).
+
+//@ fieldwritesonly[C03] StreamOpenResult.RemoteEphemeral: (*Manager).HandleStreamOpenAck
